@@ -177,6 +177,15 @@ def entries():
         add("Gload(%d,%d)" % (k % 16, k), (lambda k=k: pt.ImportScratchValue(k % 16, k)))
         add("Gload(e,%d)" % k, (lambda k=k: pt.ImportScratchValue(I(0) + I(0), k)))
         add("GeneratedID(%d)" % (k % 16), (lambda k=k: pt.GeneratedID(k % 16)))
+    # immediates past their range in every argument form (literal / run-time transaction index x literal slot):
+    # refused when built, or else the emitted text must still be legal
+    for k in (256, 300, 1 << 16):
+        add("Gload(0,%d)" % k, (lambda k=k: pt.ImportScratchValue(0, k)))
+        add("Gload(e,%d)" % k, (lambda k=k: pt.ImportScratchValue(I(0) + I(0), k)))
+    for t in (16, 17, 255, 256):
+        add("Gload(%d,0)" % t, (lambda t=t: pt.ImportScratchValue(t, 0)))
+        add("Gload(%d,e)" % t, (lambda t=t: pt.ImportScratchValue(t, I(0) + I(0))))
+        add("GeneratedID(%d)" % t, (lambda t=t: pt.GeneratedID(t)))
     add("GeneratedID(e)", lambda: pt.GeneratedID(I(0) + I(0)))
     add("DynamicScratchVar", lambda: pt.Seq((d := pt.DynamicScratchVar()).set_index(v := pt.ScratchVar(pt.TealType.uint64, 7)),
                                              d.store(I(3)), d.load() + v.load()))
